@@ -134,8 +134,8 @@ def true_value(d, tol=1e-7, maxit=120):
                     if w + sgn * const > tol * (1 + abs(const) + np.abs(g).sum()):
                         add_con_cut(con, k, zw, sgn); added += 1
         if added == 0:
-            if abs(v[0]) > big / 2:
-                return 'unbounded', None
+            if abs(v[0]) > 1e3 or np.max(np.abs(v)) > 1e3:
+                return 'unbounded', None          # the artificial box of the master problem is active: treat as unbounded
             return 'ok', float(v[0])
     return 'not-converged', None
 
@@ -158,6 +158,11 @@ def search_one(ctx, d):
     conic = bool(d['S0']['norm'] and d['S0']['norm'][0] == 2) or bool(d['S0'].get('quad')) or any(
         c['own'] and ((c['own']['norm'] and c['own']['norm'][0] == 2) or c['own'].get('quad')) for c in d['cons'])
     case = {"desc": d}
+    has_eq = any(c['sense'] == 'eq' for c in d['cons'])
+    if has_eq and st != 'ok':
+        # robust equalities pin the master LP on a measure-zero set: finitely many oracle cuts (1e-8 accurate) can make it
+        # numerically infeasible; such outcomes of the oracle are inconclusive
+        ctx.count('search:inconclusive-equality'); return
     if st == 'ok' and rs == 'ok':
         tolr = (1e-5 if not conic else 2e-4) * (1 + abs(tv))
         if abs(val - tv) > tolr:
@@ -206,6 +211,8 @@ def search_only(ctx):
         r, seed = c01.O_sub(ctx)
         d = O.gen_model(r); d['seed'] = seed
         search_one(ctx, d)
+        if ctx.hits and not ctx.quick:
+            break       # escalated search: one failing input is enough
 
 
 def replay(rp):
